@@ -1,9 +1,12 @@
 from check import run_diff_property
+import lib
 
 CFG = dict(
-    streams=[('rw', 2500, 40000)],
-    oracle_ops={'rwspec15'},
-    ops_filter={'rw', 'rwspec15'},
+    streams=[('rw', 2500, 40000), ('e2e', 150, 2500)],
+    oracle_ops={'rwspec15', 'e2e'},
+    twophase_ops={'e2e'},
+    project={'e2e': lib.proj_e2e({'st', 'body'})},
+    ops_filter={'rw', 'rwspec15', 'e2e'},
     rule=("HTTPHandler.ServeHTTP in-process: User-Agent absent / empty / 'kube-probe/…' / exactly the prefix / infix / case "
           "variant / probe text only on a second User-Agent line / prefix without slash plus the text in another header / "
           "probe on the first of two lines, crossed with methods, paths, probe support on/off and all other header noise of "
